@@ -5,6 +5,7 @@ import Clover.Proofs.ReadsAny
 import Clover.Proofs.ReadsExact
 import Clover.Proofs.RefineFaults
 import Clover.Proofs.SpecWF
+import Clover.Proofs.RefineAnyPlan
 /-! # C01 — queries return exactly the documents that satisfy their criteria -/
 namespace CV.Props.C01
 open CV
@@ -130,5 +131,35 @@ theorem spec_keeps_wellformed (ops : List Op) (hok : ∀ op ∈ ops, OpOK op) : 
   spec_history_wf likeFn fnFam ops hok
 theorem spec_error_changes_nothing (s : Spec.State) (op : Op) (h : (Spec.step likeFn fnFam s op).1.isErr = true) :
     (Spec.step likeFn fnFam s op).2 = s := spec_step_err_unchanged likeFn fnFam s op h
+
+/-- **The store follows the specification along histories whatever plans serve the calls**: reads may be
+    served by any index (they cannot change the state), bulk updates and deletes may select their
+    documents through any index plan on the key domain (no window), every other operation is
+    unrestricted; after any such history the store represents exactly the specification's state and
+    every call failed iff the specification's call failed.  (`refine_history` adds equality of the
+    answers for the calls served by a full scan.) -/
+theorem states_refine_any_plan (ops : List Op) (hok : ∀ op ∈ ops, OpOK op) (hdom : AllInDomain likeFn fnFam ops []) :
+    Rep (specRun likeFn fnFam ops []).2 (modelRun likeFn fnFam ops {}).2.kv ∧ WF (specRun likeFn fnFam ops []).2 ∧
+      (modelRun likeFn fnFam ops {}).1.map Res.isErr = (specRun likeFn fnFam ops []).1.map Res.isErr := by
+  obtain ⟨h1, h2, _⟩ := refine_states_from_empty likeFn fnFam ops hok hdom
+  exact ⟨h1, h2, refine_errs_any_plan likeFn fnFam ops hok [] {} rfl wf_empty rep_empty hdom⟩
+
+/-- the domain of `states_refine_any_plan` contains every history of `refine_history` -/
+theorem determined_histories_are_in_domain (ops : List Op) (s : Spec.State) (h : AllDetermined likeFn fnFam ops s) :
+    AllInDomain likeFn fnFam ops s := allDetermined_allInDomain likeFn fnFam ops s h
+
+/-- **… hence, after any such history, `FindAll` through any plan** answers the specification's
+    documents: a permutation of them without sort and window, and position by position up to ties of
+    the sort options with any sort, skip and limit. -/
+theorem findAll_after_any_history (ops : List Op) (hok : ∀ op ∈ ops, OpOK op) (hdom : AllInDomain likeFn fnFam ops [])
+    (q : Query) (coll : Spec.Coll) (hl : Spec.lookup q.coll (specRun likeFn fnFam ops []).2 = some coll)
+    (hdomain : KeyDomain q coll)
+    (hsd : SortDom q.sort ((coll.docs.map (·.2)).filter (fun d => satOpt likeFn fnFam d q.crit)))
+    (hnn : (choosePlan coll.indexes q).2 = true →
+      ∀ o ∈ q.sort, ∀ d ∈ (coll.docs.map (·.2)).filter (fun d => satOpt likeFn fnFam d q.crit),
+        d.has o.1 = true → d.get o.1 ≠ .null) :
+    ∃ res, (withTx false (Op.body likeFn fnFam (.findAll q)) noFault (modelRun likeFn fnFam ops {}).2.kv).1 = .ok (.docs res) ∧
+      List.Forall₂ (fun a b => compareDocuments a b q.sort = 0) res (Spec.findAll likeFn fnFam q coll) :=
+  findAll_after_history_up_to_ties likeFn fnFam ops hok hdom q coll hl hdomain hsd hnn
 
 end CV.Props.C01
